@@ -100,6 +100,7 @@ prop("C20",
 
 prop("C06",
      level="proof",
+     frames=True,
      level_text="Proofs over all byte contents and all assignments of the five *_encoding arguments (labels valid, invalid, "
                 "absent): determineEncoding returns exactly the documented precedence with the documented confidence; "
                 "detectBOM recognises the five BOMs (UTF-32 before UTF-16) and leaves the stream right after the BOM; "
